@@ -92,6 +92,9 @@ func (fx *fnExec) step(in ssa.Instruction, st *State, b *ssa.BasicBlock) {
 		case *types.Array:
 			fx.nopanic("index", st, And(BVSle(BVI(0, 64), idx), BVSlt(idx, BVI(u.Len(), 64))), in.Pos())
 			st.Regs[in] = indexOf(x, idx)
+		case *types.Basic: // string
+			fx.nopanic("index", st, And(BVSle(BVI(0, 64), idx), BVSlt(idx, x.C[2])), in.Pos())
+			st.Regs[in] = scalar(in.Type(), Select(x.C[0], BVAdd(x.C[1], idx)))
 		default:
 			fail("%s: Index on %v", fx.fn, x.T)
 		}
